@@ -270,6 +270,9 @@ func DriveMain(args []string) int {
 				"GORACE=halt_on_error=0 log_path="+filepath.Join(work, "race."+d.name),
 				"ASAN_OPTIONS=halt_on_error=1:abort_on_error=1:detect_leaks=0:log_path="+filepath.Join(work, "asan."+d.name),
 				"GOTRACEBACK=single")
+			if spec.WorkerEnv != nil {
+				cmd.Env = append(cmd.Env, spec.WorkerEnv(d.batch)...)
+			}
 			// progress watchdog: the event log must keep growing. A stall is
 			// only a suspicion; it is confirmed (or not) by re-running the
 			// in-flight case alone below.
@@ -410,11 +413,17 @@ func DriveMain(args []string) int {
 	}
 
 	known, _ := LoadKnown(filepath.Join(Root, "known_findings.json"))
+	var harnessErrs []string
 	// process deaths and race reports become violations
 	for _, d := range deaths {
 		if strings.HasPrefix(d.why, "stall-not-confirmed") {
 			total.Notes = append(total.Notes, fmt.Sprintf("INCONCLUSIVE: worker %s stalled in case %s but the case finished when run alone", d.worker, d.caseID))
 			total.Counters["inconclusive_stalls"]++
+			continue
+		}
+		if d.caseID == "" {
+			// the worker died outside any case: a defect of the harness itself
+			harnessErrs = append(harnessErrs, fmt.Sprintf("worker %s (%s) died outside a case: %s :: %s", d.worker, d.build, d.why, firstLines(d.stderr, 8)))
 			continue
 		}
 		mon := "process-death"
@@ -513,6 +522,12 @@ func DriveMain(args []string) int {
 		*prop, *tier, seed, total.Evaluations, len(distinct), spec.EventKey, events, nreal, len(knownSeen), len(deaths), nrace, wall)
 	if nreal > 0 {
 		return 1
+	}
+	if len(harnessErrs) > 0 {
+		for _, h := range harnessErrs {
+			fmt.Println("HARNESS-ERROR", oneLine(h, 800))
+		}
+		return 2
 	}
 	if broken {
 		fmt.Printf("BROKEN-CHECK property=%s: monitor observed %d events (< %d)\n", *prop, events, spec.MinEvents)
